@@ -6,8 +6,8 @@ import (
 	"encoding/hex"
 	"encoding/json"
 	"fmt"
-	"os"
 	"net/http"
+	"os"
 	"sort"
 	"strings"
 	"sync"
@@ -43,17 +43,17 @@ type testbed struct {
 	token string
 
 	// deepening pass: more clusters that share or toggle something
-	hTwin string       // second cluster whose only endpoint is fwd[0] (two clusters, one upstream)
-	hMix  string       // one cluster, two policies: configmaps -> max-in-flight 0, everything else unlimited
-	sMix  *bed.RawStub // its endpoint
-	hSat  string       // max-in-flight 1: refused only while a request is in flight
-	sSat  *bed.RawStub
-	hFlap string // deleted and re-created under its name again and again
-	sFlap *bed.RawStub
+	hTwin       string       // second cluster whose only endpoint is fwd[0] (two clusters, one upstream)
+	hMix        string       // one cluster, two policies: configmaps -> max-in-flight 0, everything else unlimited
+	sMix        *bed.RawStub // its endpoint
+	hSat        string       // max-in-flight 1: refused only while a request is in flight
+	sSat        *bed.RawStub
+	hFlap       string // deleted and re-created under its name again and again
+	sFlap       *bed.RawStub
 	flapPresent bool
-	hDead string // endpoint was healthy, then its listener went away (connection refused)
-	front  *bed.Front // TLS + HTTP/2 front door
-	front6 *bed.Front // [::1] front door (nil without IPv6 loopback)
+	hDead       string     // endpoint was healthy, then its listener went away (connection refused)
+	front       *bed.Front // TLS + HTTP/2 front door
+	front6      *bed.Front // [::1] front door (nil without IPv6 loopback)
 	// history of the forwarding cluster (only whoever holds the test bed writes)
 	fwdEvents  int
 	fwdSwapped bool
@@ -73,7 +73,9 @@ func (tb *testbed) fwdSpec() bed.ClusterSpec {
 	return bed.ClusterSpec{Name: tb.hFwd, Servers: servers}
 }
 
-func (tb *testbed) flapSpec() bed.ClusterSpec { return bed.ClusterSpec{Name: tb.hFlap, Servers: []string{tb.sFlap.URL}} }
+func (tb *testbed) flapSpec() bed.ClusterSpec {
+	return bed.ClusterSpec{Name: tb.hFlap, Servers: []string{tb.sFlap.URL}}
+}
 
 // applyWait (re-)delivers a cluster object and waits for its enabled endpoints.
 func (tb *testbed) applyWait(spec bed.ClusterSpec) error {
@@ -122,7 +124,9 @@ func (tb *testbed) resetFwdTransport(k int) error {
 	return tb.readyAgain(tb.hFwd, tb.fwd[k].URL)
 }
 
-func (tb *testbed) stubs() []*bed.RawStub { return append(append([]*bed.RawStub(nil), tb.fwd...), tb.aux...) }
+func (tb *testbed) stubs() []*bed.RawStub {
+	return append(append([]*bed.RawStub(nil), tb.fwd...), tb.aux...)
+}
 
 func (tb *testbed) activity() (int, int) {
 	r, p := 0, 0
@@ -429,6 +433,7 @@ func TestCheck(t *testing.T) {
 			r.Require(r.Counter("flap_cluster_deleted") >= 5 && r.Counter("flap_cluster_recreated") >= 5, "the delete / re-create cycle of a cluster hardly ran")
 			r.Require(r.Counter("fwd_cluster_transport_resets")+r.Counter("fwd_cluster_redelivered_swapped")+r.Counter("fwd_cluster_recreated") >= 6 && r.Counter("forwarded_after_fwd_cluster_config_event") >= int64(n/20),
 				"the forwarding cluster hardly lived through config events")
+			r.Require(r.Counter("forwarded_with_client_address_headers") >= int64(n/20) && r.Counter("forwarded_upgrade_with_client_address_headers") >= int64(n/400), "too few forwarded requests carried X-Real-Ip-style headers")
 			r.Require(r.Counter("upstream_copies_beyond_first_judged") >= 3, "no retried copy of a request was seen upstream")
 			r.Require(r.Counter("expect_continue_got_100") >= 3, "Expect: 100-continue was never answered with an interim 100")
 			r.Require(r.Counter("concurrent_batches_with_redeliver")+r.Counter("concurrent_batches_with_redeliver-swapped") >= int64(nb/10) && r.Counter("concurrent_batches_with_reset-transport") >= int64(nb/25), "too few batches raced with a config event")
@@ -934,6 +939,12 @@ func judgeForwarded(r *vkit.R, tb *testbed, f *fwd, respp *bed.RawResponse) {
 	if x.Boundary != "" {
 		r.Count("forwarded_boundary_"+x.Boundary, 1)
 	}
+	if x.ProxyHeaders {
+		r.Count("forwarded_with_client_address_headers", 1)
+		if upgrade {
+			r.Count("forwarded_upgrade_with_client_address_headers", 1)
+		}
+	}
 	if x.Route == "fwd" && tb.fwdEvents > 0 {
 		r.Count("forwarded_after_fwd_cluster_config_event", 1)
 	}
@@ -1255,7 +1266,9 @@ func runTerminated(r *vkit.R, tb *testbed, i int, g *vkit.Rand, big bool) {
 		r.Inconclusive(fmt.Sprintf("exchange %d (%s): no parsable answer from the gateway: %v", i, class, resp.Err))
 		return
 	}
-	w := func() map[string]interface{} { return witness(i, x, &resp, nil, map[string]interface{}{"class": class}) }
+	w := func() map[string]interface{} {
+		return witness(i, x, &resp, nil, map[string]interface{}{"class": class})
+	}
 	if excludedRequestInfo500(&resp, x.Req.Method) {
 		// the generic request-info filter is the outermost one: it answers before any kubegateway code (excluded, counted);
 		// non-forwarding is still judged below
